@@ -562,6 +562,43 @@ def run(rep: Report, tier: str) -> None:
                       "the parse (e.g. `this ruleset name is already sorted`) makes a later parse of the same text return a different AST")
     from sa import globalsx as _gx8
     _gx8.report_written_globals(P, rep, "R23.8", ("vtlengine.AST",), "the AST returned for a text then depends on which texts were parsed earlier in the process")
+    # ---- R23.9: deciding whether a string is a file name or script text cannot fail ----
+    rep.rule("R23.9", "load_vtl: while its argument may still be script text (the isinstance(..., str) branch), the file-system probe is a total predicate (os.path.exists / isfile) or is "
+                      "wrapped in try/except OSError: pathlib's exists() / is_file() / stat() re-raise ENAMETOOLONG, so a long one-line script would end in a raw OSError before the parser runs")
+    flv = P.func("vtlengine.API._InternalApi.load_vtl")
+    par9 = [x for x in flv.params][0]
+    str_branches = [st for st in walk_no_nested(flv.node) if isinstance(st, ast.If) and isinstance(st.test, ast.Call) and getattr(st.test.func, "id", "") == "isinstance"
+                    and isinstance(st.test.args[0], ast.Name) and st.test.args[0].id == par9 and "str" in src(st.test.args[1])]
+    if not str_branches:
+        raise AnalysisError("load_vtl: the isinstance(<argument>, str) branch not found (anchor changed)")
+    n9 = 0
+    for br in str_branches:
+        pathy = {par9}
+        for x in ast.walk(br):
+            if isinstance(x, ast.Assign) and isinstance(x.value, ast.Call) and (dotted(x.value.func) or "").split(".")[-1] in ("Path", "PurePath") \
+                    and any(isinstance(a, ast.Name) and a.id in pathy for a in x.value.args):
+                pathy |= {t.id for t in x.targets if isinstance(t, ast.Name)}
+        for x in ast.walk(br):
+            if not (isinstance(x, ast.Call) and isinstance(x.func, ast.Attribute)):
+                continue
+            recv = x.func.value
+            on_text = (isinstance(recv, ast.Name) and recv.id in pathy and recv.id != par9) or \
+                (isinstance(recv, ast.Call) and (dotted(recv.func) or "").split(".")[-1] in ("Path", "PurePath") and any(isinstance(a, ast.Name) and a.id in pathy for a in recv.args))
+            total = (dotted(x.func) or "").startswith("os.path.")
+            if x.func.attr in ("exists", "is_file", "is_dir", "stat", "lstat", "resolve", "samefile", "open", "read_text") and (on_text or total):
+                n9 += 1
+                guarded = False
+                p_ = getattr(x, "_parent", None)
+                while p_ is not None and p_ is not flv.node:
+                    if isinstance(p_, ast.Try) and any(h.type is None or any(k in src(h.type) for k in ("OSError", "Exception", "ValueError")) for h in p_.handlers) and any(x in list(ast.walk(b_)) for b_ in p_.body):
+                        guarded = True
+                    p_ = getattr(p_, "_parent", None)
+                rep.instance("R23.9", f"probe/{src(x)[:40]}", nontrivial=True, sample={"probe": src(x)[:60], "total_predicate": total, "guarded": guarded})
+                if on_text and not total and not guarded:
+                    rep.add(Finding("R23.9", f"R23.9/probe/{x.func.attr}", flv.module.rel, x.lineno, flv.qualname,
+                                    f"`{src(x)[:60]}` probes the file system with a string that may be the script text itself: pathlib re-raises ENAMETOOLONG (a path component over 255 "
+                                    f"characters, e.g. a long one-line script) and ValueError (embedded NUL), so create_ast's callers get a raw OSError instead of an AST or a VTL error"))
+    rep.floor("R23.9 file-system probes on the text branch", n9, 1)
     rep.assumptions = ["bindings.cpp is analysed as text (no C++ front end with the project's headers is available)",
                        "ANTLR error listeners receive every lexer and parser error", "RC.<NAME> constants are the grammar's alternative labels in SNAKE_CASE"]
 
